@@ -1,2 +1,66 @@
+(* C04 — reading IMSC/TTML XML follows TTML timing semantics.
+   Only statements, `exact`, and Print Assumptions.  M = Model/ImscTime.v, Model/ImscTiming.v (transcription of
+   ttconv/imsc/utils.py, attributes.py, elements.py), S = Spec/TtmlTimingSpec.v.  All statements are for unbounded
+   inputs (every time expression of the grammar, every XML tree, every parsing context). *)
 From TT Require Import Base.Prelude Base.ImscXml Model.ImscTime Model.ImscTiming Spec.TtmlTimingSpec.
-From TT Require Import Proofs.C04.TimeSyntax Proofs.C04.Interval.
+From TT Require Import Proofs.C04.TimeSyntax Proofs.C04.Interval Proofs.C04.Total Proofs.C04.Params.
+From Coq Require Import QArith.
+Local Open Scope Z_scope.
+
+(* every member of the TTML2 <time-expression> grammar (clock time with fraction, clock time with frames, and the
+   h / m / s / ms / f / t offsets), printed, is parsed to the value the grammar gives it under the frame rate and the
+   tick rate; a frames term that is not smaller than the frame rate is rejected *)
+Theorem C04_time_syntax : forall e tr fr, wf_texpr e = true -> 0 < tr -> (0 < fr)%Q ->
+  tres_equiv (parse_time_x (Some tr) (Some fr) (print_time e)) (time_value fr (inject_Z tr) e).
+Proof. exact time_syntax. Qed.
+
+(* a string whose last character is neither a digit nor a metric letter is not a time expression *)
+Theorem C04_time_not_in_grammar : forall l c, is_digit c = false -> ~ In c [104; 109; 115; 102; 116] -> ~ in_grammar (l ++ [c]).
+Proof. exact not_in_grammar_last. Qed.
+(* full statement, not proved (what is missing: the completeness direction of the recognisers):
+     C04_time_reject_partial : forall tr fr s, lax_trigger s = false -> ~ in_grammar s -> parse_time tr fr s = None
+   the unconditional statement is refuted in Findings/C04.v (C04_time_reject_refuted). *)
+
+(* intervals: for every XML tree x and every parsing context in which the reader model returns (and reports no
+   content-model error), its desired begin and end of x are the begin and end of the TTML2 interval semantics of x,
+   relative to the begin of the parent, with the syncbase the reader was given (0 in a par parent, the end of the
+   previous sibling in a seq parent); by induction on the tree *)
+Theorem C04_interval : forall ev x pc r,
+  process ev pc x = POk r -> r_pushfail r = false ->
+  exists sync, implicit_begin pc = Some sync /\
+    (r_des_begin r == fst (interval (tv_of ev) (negb (pc_par pc)) sync x))%Q /\
+    oq_rel (r_des_end r) (snd (interval (tv_of ev) (negb (pc_par pc)) sync x)).
+Proof. exact interval_sound. Qed.
+
+(* totality: with non-zero rates, a tree without sequential containers is always read.  The unconditional statement is
+   refuted in Findings/C04.v (C04_read_total_refuted, finding seq-indefinite-sibling; C04_zero_rate_refuted). *)
+Theorem C04_read_total_partial : forall ev x pc, rates_ok ev -> pc_par pc = true -> no_seq x = true ->
+  forall e, process ev pc x <> PErr e.
+Proof. intros ev x pc H. exact (read_total_no_seq ev x H pc). Qed.
+
+(* document parameters on well-formed attribute values *)
+Theorem C04_frame_rate : forall attrs fr mult, frame_rate_wf attrs fr mult ->
+  exists q, extract_frame_rate attrs = Some q /\ (q == spec_frame_rate attrs)%Q /\ (q == inject_Z fr * mult)%Q.
+Proof. exact frame_rate_given. Qed.
+Theorem C04_tick_rate_partial : forall attrs s n, get_attr attrs A_tickRate = Some s -> pos_int s = Some n ->
+  extract_tick_rate attrs = n /\ (spec_tick_rate attrs == inject_Z n)%Q.
+Proof. exact tick_rate_given. Qed.
+Theorem C04_tick_rate_default_partial : forall attrs, get_attr attrs A_tickRate = None -> spec_frame_rate_attr attrs = None ->
+  extract_tick_rate attrs = 1 /\ (spec_tick_rate attrs == 1)%Q.
+Proof. exact tick_rate_default. Qed.
+
+(* non-vacuity: "00:00:01:12" at 25 fps is 1.48 s; <div begin="1s"><p dur="2s"/><p end="5s"/></div> ends at 6 s *)
+Example C04_example_clock_frames :
+  parse_time (Some 1) (Some (25 # 1)) (print_time (TClockFrames [0; 0] 0 0 0 1 [1; 2])) = Some (0 * 3600 + 0 * 60 + 1 + (12 # 1) / (25 # 1))%Q.
+Proof. reflexivity. Qed.
+Example C04_example_interval :
+  let x := X T_div [(A_begin, [49; 115])] None None [X T_p [(A_dur, [50; 115])] None None []; X T_p [(A_end, [53; 115])] None None []] in
+  match process (mkEnv 1 (30 # 1) [] (fun _ _ => false)) (mkPctx true None 0 false [] true) x with
+  | POk r => Qeq_bool (r_des_begin r) 1 && match r_des_end r with Some e => Qeq_bool e 6 | None => false end && negb (r_pushfail r)
+  | _ => false
+  end = true.
+Proof. vm_compute. reflexivity. Qed.
+
+Print Assumptions C04_time_syntax.  Print Assumptions C04_time_not_in_grammar.  Print Assumptions C04_interval.
+Print Assumptions C04_read_total_partial.  Print Assumptions C04_frame_rate.  Print Assumptions C04_tick_rate_partial.
+Print Assumptions C04_tick_rate_default_partial.
